@@ -49,7 +49,7 @@ ASSUMPTIONS = [
     "traced under python -O is the identity and is not explored",
     "throttle/timeout are documented as function-only: generated as plain functions",
 ]
-REQUIRED_CLASSES = ["method", "keyword-arguments", "inside-scope", "raises", "asynchronous", "traced", "receiver-copy", "receiver-super", "wrapper-like-parameter-names"]
+REQUIRED_CLASSES = ["method", "keyword-arguments", "inside-scope", "raises", "asynchronous", "traced", "receiver-copy", "receiver-super", "wrapper-like-parameter-names", "one-shot-iterator-argument"]
 
 DECS = [
     "asynchronous_bare", "asynchronous_call", "asynchronous_executor", "wrap_async_sync", "wrap_async_async",
@@ -82,6 +82,10 @@ def fingerprint(labels):
     return fp
 
 
+_ITER_ITEMS: dict = {}
+_ITER_KEEP: list = []
+
+
 def make_value(spec):
     k = spec["k"]
     if k == "int":
@@ -98,6 +102,13 @@ def make_value(spec):
         return P.A(v=spec["x"])
     if k == "obj":
         return object()
+    if k == "iter":
+        # a one-shot iterator / generator as ARGUMENT: the function itself must be the one that consumes it
+        it = iter(list(spec["items"])) if spec.get("how") == "iter" else (x for x in list(spec["items"]))
+        _ITER_ITEMS[id(it)] = list(spec["items"])
+        _ITER_KEEP.append(it)
+        del _ITER_KEEP[:-64]
+        return it
     if k == "future":
         # a legitimate RESULT that happens to be awaitable: must be returned as it is, never awaited by a wrapper
         import concurrent.futures
@@ -255,6 +266,11 @@ def run_case(case) -> Outcome:  # noqa: C901, PLR0912, PLR0915
         loc = dict(loc)
         seen["self"] = loc.pop("self", None)
         seen["locals"] = loc
+        consumed = {}
+        for name, v in list(loc.items()) + list((loc.get("extra") or {}).items()) + list(enumerate(loc.get("rest") or ())):
+            if hasattr(v, "__next__"):
+                consumed[name] = list(v)
+        seen["consumed"] = consumed
         seen["thread"] = threading.get_ident()
         seen["fp"] = fingerprint(labels)
         if threaded:
@@ -476,6 +492,9 @@ def run_case(case) -> Outcome:  # noqa: C901, PLR0912, PLR0915
             hb["ticks"] = 0
             seen.clear()
             obs.clear()
+            # fresh argument objects per round (one-shot iterators are consumed by the function)
+            args = [make_value(a) for a in case["call"]["args"]]
+            kwargs = {_nm(sig, k): make_value(v) for k, v in case["call"]["kwargs"].items()}
             with asyncio.Runner() as runner:
                 runner.run(main())
             invoked_rounds += 1 if "locals" in seen else 0
@@ -499,6 +518,12 @@ def run_case(case) -> Outcome:  # noqa: C901, PLR0912, PLR0915
             out.violate("transparent", f"C18.transparent/wrong-receiver/{tag}/{receiver}", f"self={seen.get('self')!r} receiver={obs.get('recv')!r}")
         if receiver == "super" and overrides["n"] != overrides["expected"]:
             out.violate("transparent", f"C18.transparent/subclass-override-bypassed/{tag}", f"override ran {overrides['n']}x for {overrides['expected']} calls")
+        exp_consumed = {}
+        for name, v in list(expected_locals.items()) + list((expected_locals.get("extra") or {}).items()) + list(enumerate(expected_locals.get("rest") or ())):
+            if hasattr(v, "__next__"):
+                exp_consumed[name] = _ITER_ITEMS.get(id(v))
+        if exp_consumed and seen.get("consumed") != exp_consumed and seen.get("locals") is not None and receiver == "plain":
+            out.violate("transparent", f"C18.transparent/one-shot-iterator-argument-consumed-before-the-function/{tag}", f"function could read {seen.get('consumed')!r}, expected {exp_consumed!r}")
         if not _same_locals(seen["locals"], expected_locals):
             out.violate("transparent", f"C18.transparent/arguments-changed/{tag}", f"received {seen['locals']!r} expected {expected_locals!r}")
         if outcome["kind"] == "cancelled":
@@ -567,6 +592,8 @@ def run_case(case) -> Outcome:  # noqa: C901, PLR0912, PLR0915
         classes.append("raises")
     if executor is not None:
         classes.append("explicit-executor")
+    if any(hasattr(v, "__next__") for v in [*args, *kwargs.values()]):
+        classes.append("one-shot-iterator-argument")
     if receiver != "plain":
         classes.append(f"receiver-{receiver}")
     if sig.get("names"):
@@ -632,6 +659,7 @@ def strategy(tier):
             st.builds(lambda x: {"k": "state", "x": x}, st.integers(0, 5)),
             st.just({"k": "obj"}),
             st.just({"k": "future"}),
+            st.builds(lambda xs, how: {"k": "iter", "items": xs, "how": how}, st.lists(st.integers(0, 9), min_size=1, max_size=3), st.sampled_from(["iter", "gen"])),
         ),
         lambda ch: st.one_of(
             st.builds(lambda xs: {"k": "list", "items": xs}, st.lists(ch, max_size=2)),
@@ -649,7 +677,7 @@ def strategy(tier):
     def cases(draw):
         dec = draw(st.sampled_from(DECS + ["asynchronous_bare", "asynchronous_call", "traced_sync", "traced_async"]))
         form = "function"
-        if dec in ("asynchronous_bare", "asynchronous_call", "asynchronous_executor", "cache", "traced_sync", "traced_async"):
+        if dec in METHOD_DECS:
             form = draw(st.sampled_from(["function", "method", "method", "unbound"]))
         if dec == "cache" and form == "unbound":
             form = "method"
@@ -675,6 +703,14 @@ def strategy(tier):
                 kwargs[f"k{j}"] = draw(val)
         if sig["varkw"] and draw(st.booleans()):
             kwargs["zz"] = draw(val)
+        if dec != "cache" and (args or kwargs) and draw(st.integers(0, 4)) == 0:
+            # one argument is a one-shot iterator / generator
+            it = {"k": "iter", "items": draw(st.lists(st.integers(0, 9), min_size=1, max_size=3)), "how": draw(st.sampled_from(["iter", "gen"]))}
+            slot = draw(st.integers(0, len(args) + len(kwargs) - 1))
+            if slot < len(args):
+                args[slot] = it
+            else:
+                kwargs[sorted(kwargs)[slot - len(args)]] = it
         kind = draw(st.sampled_from(["return", "return", "raise"]))
         if kind == "return":
             outcome = {"kind": "return", "v": draw(value)}
@@ -713,7 +749,7 @@ def strategy(tier):
     return cases()
 
 
-METHOD_DECS = ("asynchronous_bare", "asynchronous_call", "asynchronous_executor", "cache", "traced_sync", "traced_async")
+METHOD_DECS = ("asynchronous_bare", "asynchronous_call", "asynchronous_executor", "cache", "traced_sync", "traced_async", "wrap_async_sync", "wrap_async_async", "retry")
 
 
 def _name_cases():
